@@ -115,6 +115,9 @@ struct Case {
     substituted: String,
     uses: BTreeSet<&'static str>,
     any_wrap: bool,
+    /// (parameter index, literal text of a value of that parameter's type, its size in bits): the
+    /// argument must be accepted through the literal API of the program compiled with constants
+    literal_probe: Option<(usize, String, usize)>,
 }
 
 struct G<'a> {
@@ -292,6 +295,7 @@ fn gen_case(rng: &mut Rng) -> Case {
     // underflows (half of the time): evaluated by the compiler's second const evaluator (sizes of
     // types); the substituted program gets the value computed here in wrapping arithmetic
     let mut inline_size: Option<(String, i128)> = None;
+    let mut literal_probe: Option<(usize, String, usize)> = None;
     if !single_array_main && g.rng.chance(1, 2) {
         let (a_text, a) = match sizes.first() {
             Some(sd) if g.rng.bool() => (sd.name.clone(), sd.value),
@@ -307,8 +311,23 @@ fn gen_case(rng: &mut Rng) -> Case {
         if c >= 0 {
             let text = if underflow || g.rng.bool() { format!("{a_text} - {b}usize + {c}usize") } else { format!("{c}usize + {a_text} - {b}usize") };
             uses.insert(if underflow { "inline const-expr array size with an underflowing intermediate" } else { "inline const-expr array size" });
-            params.push("ia: [u8; INLINESIZE]".into());
-            body += "    for e in ia { acc = (acc ^ (e as u64)) << 1u8; }\n";
+            // the element type is itself a const-sized array in half of the cases (when a size >= 1 exists)
+            let inner = sizes.iter().find(|sd| sd.value >= 1 && sd.value <= 4).filter(|_| g.rng.bool());
+            let row = |k: i128, len: i128| format!("[{}]", (0..len).map(|j| format!("{}u8", (7 * k + j + 1) % 256)).collect::<Vec<_>>().join(", "));
+            match inner {
+                Some(sd) => {
+                    uses.insert("inline const-expr array size over const-sized rows");
+                    params.push(format!("ia: [[u8; {}]; INLINESIZE]", sd.name));
+                    body += "    for row in ia { for e in row { acc = (acc ^ (e as u64)) << 1u8; } }\n";
+                    let text_lit = format!("[{}]", (0..target).map(|k| row(k, sd.value)).collect::<Vec<_>>().join(", "));
+                    literal_probe = Some((params.len() - 1, text_lit, (8 * target * sd.value) as usize));
+                }
+                None => {
+                    params.push("ia: [u8; INLINESIZE]".into());
+                    body += "    for e in ia { acc = (acc ^ (e as u64)) << 1u8; }\n";
+                    literal_probe = Some((params.len() - 1, row(0, target), (8 * target) as usize));
+                }
+            }
             inline_size = Some((text, target));
         }
     }
@@ -358,7 +377,7 @@ fn gen_case(rng: &mut Rng) -> Case {
     if let Some((_, value)) = &inline_size {
         substituted = substituted.replace("INLINESIZE", &value.to_string());
     }
-    Case { exts, defs, with_consts, substituted, uses, any_wrap }
+    Case { exts, defs, with_consts, substituted, uses, any_wrap, literal_probe }
 }
 
 fn literal_of(ty: CTy, v: i128) -> Literal {
@@ -494,6 +513,32 @@ fn one_case(ctx: &Ctx, rng: &mut Rng, st: &mut St) {
         }
         (CompileOutcome::Ok(a), CompileOutcome::Ok(b)) => {
             st.counts.inc("both compiled");
+            // arguments of const-sized parameter types through the literal API
+            if let Some((idx, text, n_bits)) = &case.literal_probe {
+                for (which, prg) in [("program with constants", a), ("substituted program", b)] {
+                    match crate::util::catch(|| prg.parse_arg(*idx, text).map(|arg| arg.as_bits().len())) {
+                        Ok(Ok(n)) if n == *n_bits => st.counts.inc("argument literal of a const-sized parameter accepted"),
+                        other => {
+                            let mut d = describe();
+                            d["argument"] = json!({"parameter": idx, "literal": text, "expected_bits": n_bits, "outcome": format!("{other:?}").chars().take(400).collect::<String>()});
+                            ctx.violation(&format!("{which}: a value of a const-sized parameter type is not accepted by parse_arg (or has the wrong size)"), d);
+                            return;
+                        }
+                    }
+                    let lit = crate::util::catch(|| prg.parse_arg(*idx, text).map(|arg| arg.as_literal()));
+                    if let Ok(Ok(lit)) = lit {
+                        match crate::util::catch(|| prg.literal_arg(*idx, lit.clone()).map(|arg| arg.as_bits().len())) {
+                            Ok(Ok(n)) if n == *n_bits => {}
+                            other => {
+                                let mut d = describe();
+                                d["argument"] = json!({"parameter": idx, "literal": text, "expected_bits": n_bits, "outcome": format!("{other:?}").chars().take(400).collect::<String>()});
+                                ctx.violation(&format!("{which}: a value of a const-sized parameter type is refused by literal_arg (type test against the parameter type)"), d);
+                                return;
+                            }
+                        }
+                    }
+                }
+            }
             let (ca, cb) = (gl::ssa(a), gl::ssa(b));
             if ca.input_gates != cb.input_gates {
                 ctx.violation(&format!("party sizes differ: with constants {:?}, substituted {:?}", ca.input_gates, cb.input_gates), describe());
